@@ -17,6 +17,7 @@ import (
 	"encoding/hex"
 	"fmt"
 	"math/big"
+	"strings"
 	"testing"
 
 	"github.com/bytom/bytom/consensus"
@@ -37,145 +38,90 @@ type c06Case struct {
 	Spare int `json:"spare"` // bytes in the shared buffer after the last item
 }
 
-// watched is a caller-visible byte region and its content before the run.
-type watched struct {
-	name string
-	buf  []byte // full extent (len == cap of what the caller owns)
-	want []byte
-}
-
-func watch(name string, b []byte) watched {
-	full := b[:cap(b)]
-	return watched{name: name, buf: full, want: append([]byte{}, full...)}
-}
-
-func changed(ws []watched) error {
-	for _, w := range ws {
-		if !bytes.Equal(w.buf, w.want) {
-			return fmt.Errorf("caller-visible bytes of %s changed during vm.Verify: %x -> %x", w.name, w.want, w.buf)
-		}
-	}
-	return nil
-}
-
-func exact(b []byte) []byte { // independent buffer, no spare capacity
-	out := make([]byte, len(b))
-	copy(out, b)
-	return out[:len(b):len(b)]
-}
-
-func watchContext(ctx *vm.Context, ws []watched) []watched {
-	ws = append(ws, watch("entry id", ctx.EntryID))
-	if ctx.AssetID != nil {
-		ws = append(ws, watch("asset id", *ctx.AssetID))
-	}
-	if ctx.SpentOutputID != nil {
-		ws = append(ws, watch("spent output id", *ctx.SpentOutputID))
-	}
-	if ctx.TxSigHash != nil {
-		ws = append(ws, watch("cached tx signature hash", ctx.TxSigHash()))
-	}
-	return ws
-}
-
-// layoutFresh: every item an independent buffer of exact capacity.
-func layoutFresh(c *c06Case, calls *[]string) (*vm.Context, []watched) {
-	code := exact(unhex(c.Prog))
-	var args, state [][]byte
-	ws := []watched{watch("program", code)}
-	for i, a := range unhexList(c.Args) {
-		b := exact(a)
-		args = append(args, b)
-		ws = append(ws, watch(fmt.Sprintf("argument %d", i), b))
-	}
-	for i, a := range unhexList(c.State) {
-		b := exact(a)
-		state = append(state, b)
-		ws = append(ws, watch(fmt.Sprintf("state item %d", i), b))
-	}
-	ctx := implContext(&c.vmCase, code, args, state, calls)
-	return ctx, watchContext(ctx, ws)
-}
-
-// layoutShared: program, state data and arguments are consecutive sub-slices of
+// sharedBuilder: program, state data and arguments are consecutive sub-slices of
 // one buffer, each with capacity up to the end of the buffer, empty items nil:
 // exactly what blockchain.ReadVarstr31 / ReadVarstrList hand out.
-func layoutShared(c *c06Case, calls *[]string) (*vm.Context, []watched) {
-	items := [][]byte{unhex(c.Prog)}
-	items = append(items, unhexList(c.State)...)
-	items = append(items, unhexList(c.Args)...)
-	buf := bytes.Repeat([]byte{0xE1}, c.Lead)
-	var offs []int
-	for _, it := range items {
-		offs = append(offs, len(buf))
-		buf = append(buf, it...)
-	}
-	buf = append(buf, bytes.Repeat([]byte{0xE2}, c.Spare)...)
-	buf = buf[:len(buf):len(buf)]
-	sub := func(i int) []byte {
-		if len(items[i]) == 0 {
-			return nil
+func sharedBuilder(c *c06Case) func() (*instance, error) {
+	return func() (*instance, error) {
+		items := [][]byte{unhex(c.Prog)}
+		items = append(items, unhexList(c.State)...)
+		items = append(items, unhexList(c.Args)...)
+		buf := bytes.Repeat([]byte{0xE1}, c.Lead)
+		var offs []int
+		for _, it := range items {
+			offs = append(offs, len(buf))
+			buf = append(buf, it...)
 		}
-		return buf[offs[i] : offs[i]+len(items[i])]
+		buf = append(buf, bytes.Repeat([]byte{0xE2}, c.Spare)...)
+		buf = exact(buf)
+		sub := func(i int) []byte {
+			if len(items[i]) == 0 {
+				return nil
+			}
+			return buf[offs[i] : offs[i]+len(items[i])]
+		}
+		in := &instance{code: sub(0)}
+		ns := len(c.State)
+		for i := 0; i < ns; i++ {
+			in.state = append(in.state, sub(1+i))
+		}
+		for i := range c.Args {
+			in.args = append(in.args, sub(1+ns+i))
+		}
+		in.fillContextFields(&c.vmCase)
+		in.extra = func() []region {
+			return []region{fullCopy("shared buffer holding program|state|arguments|spare", buf)}
+		}
+		return in, nil
 	}
-	var args, state [][]byte
-	ns := len(c.State)
-	for i := 0; i < ns; i++ {
-		state = append(state, sub(1+i))
-	}
-	for i := range c.Args {
-		args = append(args, sub(1+ns+i))
-	}
-	ctx := implContext(&c.vmCase, sub(0), args, state, calls)
-	return ctx, watchContext(ctx, []watched{{name: "shared buffer holding program|state|arguments|spare", buf: buf, want: append([]byte{}, buf...)}})
 }
 
-// layoutDecoded: the items are the fields of a transaction obtained by decoding
-// its serialisation.  The transaction is returned re-serialisable so that the
-// caller can see whether any of its bytes changed.
-func layoutDecoded(c *c06Case, calls *[]string) (*vm.Context, func() error, error) {
-	asset := bc.NewAssetID([32]byte{1})
-	src := bc.NewHash([32]byte{2})
-	var state [][]byte
-	if len(c.State) > 0 {
-		state = unhexList(c.State)
-	}
-	var args [][]byte
-	if len(c.Args) > 0 {
-		args = unhexList(c.Args)
-	}
-	data := types.TxData{
-		Version: 1,
-		Inputs: []*types.TxInput{
-			types.NewSpendInput(args, src, asset, 100, 0, unhex(c.Prog), state),
-			types.NewSpendInput([][]byte{[]byte("second-input-argument")}, src, asset, 7, 1, []byte{0x51}, [][]byte{[]byte("second-input-state")}),
-		},
-		Outputs: []*types.TxOutput{types.NewOriginalTxOutput(asset, 107, []byte("output-control-program"), [][]byte{[]byte("output-state")})},
-	}
-	text, err := data.MarshalText()
-	if err != nil {
-		return nil, nil, err
-	}
-	var dec types.TxData
-	if err := dec.UnmarshalText(text); err != nil {
-		return nil, nil, err
-	}
-	in, ok := dec.Inputs[0].TypedInput.(*types.SpendInput)
-	if !ok {
-		return nil, nil, fmt.Errorf("decoded input is not a spend")
-	}
-	ctx := implContext(&c.vmCase, in.ControlProgram, in.Arguments, in.StateData, calls)
-	after := func() error {
-		again, err := dec.MarshalText()
+// decodedBuilder: the items are the fields of a transaction obtained by decoding
+// its serialisation; what the caller sees afterwards is how that transaction
+// serialises.
+func decodedBuilder(c *c06Case) func() (*instance, error) {
+	return func() (*instance, error) {
+		asset := bc.NewAssetID([32]byte{1})
+		src := bc.NewHash([32]byte{2})
+		var state [][]byte
+		if len(c.State) > 0 {
+			state = unhexList(c.State)
+		}
+		var args [][]byte
+		if len(c.Args) > 0 {
+			args = unhexList(c.Args)
+		}
+		data := types.TxData{
+			Version: 1,
+			Inputs: []*types.TxInput{
+				types.NewSpendInput(args, src, asset, 100, 0, unhex(c.Prog), state),
+				types.NewSpendInput([][]byte{[]byte("second-input-argument")}, src, asset, 7, 1, []byte{0x51}, [][]byte{[]byte("second-input-state")}),
+			},
+			Outputs: []*types.TxOutput{types.NewOriginalTxOutput(asset, 107, []byte("output-control-program"), [][]byte{[]byte("output-state")})},
+		}
+		text, err := data.MarshalText()
 		if err != nil {
-			return fmt.Errorf("decoded transaction no longer serialises after vm.Verify: %v", err)
+			return nil, err
 		}
-		if !bytes.Equal(again, text) {
-			return fmt.Errorf("the decoded transaction changed during vm.Verify of its first input:\n  before %s\n  after  %s", text, again)
+		dec := new(types.TxData)
+		if err := dec.UnmarshalText(text); err != nil {
+			return nil, err
 		}
-		return nil
+		spend, ok := dec.Inputs[0].TypedInput.(*types.SpendInput)
+		if !ok {
+			return nil, fmt.Errorf("decoded input is not a spend")
+		}
+		in := &instance{code: spend.ControlProgram, args: spend.Arguments, state: spend.StateData}
+		in.fillContextFields(&c.vmCase)
+		in.extra = func() []region {
+			again, err := dec.MarshalText()
+			if err != nil {
+				again = []byte("does not serialise: " + err.Error())
+			}
+			return []region{{name: "serialisation of the decoded transaction", b: again}}
+		}
+		return in, nil
 	}
-	return ctx, after, nil
 }
 
 // ---- generator --------------------------------------------------------------
@@ -289,6 +235,8 @@ func sameRun(name string, a, b outcome) error {
 	return nil
 }
 
+const c06KnownCat = "cat-appends-into-shared-backing-array"
+
 func c06Exec(c c06Case, x *pbt.Ctx) error {
 	res, refCalls := runRef(&c.vmCase, refvm.Options{})
 	aliased, spliced := false, false
@@ -322,49 +270,50 @@ func c06Exec(c c06Case, x *pbt.Ctx) error {
 	fail := func(part string, err error) error {
 		return fmt.Errorf("(%s) %v\n  %s\n  shared-buffer layout: %d leading bytes, %d spare bytes", part, err, describeCase(&c.vmCase), c.Lead, c.Spare)
 	}
-
-	var callsA, callsB, callsC []string
-	ctxA, wsA := layoutFresh(&c, &callsA)
-	oA := runImpl(ctxA, c.Gas, &callsA)
-	errA := changed(wsA)
-
-	ctxB, wsB := layoutShared(&c, &callsB)
-	oB := runImpl(ctxB, c.Gas, &callsB)
-	errB := changed(wsB)
-
-	ctxC, afterC, err := layoutDecoded(&c, &callsC)
-	if err != nil {
-		return fail("harness", fmt.Errorf("HARNESS: cannot build the transaction: %v", err))
+	layouts := []struct {
+		name  string
+		build func() (*instance, error)
+	}{
+		{"independent buffers", freshBuilder(&c.vmCase)},
+		{"sub-slices of one shared buffer", sharedBuilder(&c)},
+		{"fields of a decoded transaction", decodedBuilder(&c)},
 	}
-	oC := runImpl(ctxC, c.Gas, &callsC)
-	errC := afterC()
-
-	// (iii) first: it yields the smallest programs
-	if err := diffRef(oA, res, refCalls); err != nil {
-		for _, st := range res.Steps {
-			if st.Wide64 {
-				x.Class("differs-from-reference:C08-matter(wide operand)")
-				return nil
+	// (i) and (iii) per layout: the run equals the reference (value semantics) and leaves every caller-visible byte alone
+	var outs []outcome
+	allClean := true
+	known := map[string]bool{}
+	for _, l := range layouts {
+		o, v := judgeInstance(&c.vmCase, l.build, res, refCalls)
+		outs = append(outs, o)
+		if v.err != nil {
+			return fail("i/iii: "+l.name, v.err)
+		}
+		if !v.clean {
+			allClean = false
+			x.Class("diverges:" + l.name)
+			for _, f := range v.explained {
+				known[f] = true
 			}
 		}
-		return fail("iii: independent buffers vs reference (value semantics)", err)
 	}
-	// (i)
-	if errA != nil {
-		return fail("i: independent buffers", errA)
+	for _, f := range allFeatures {
+		if !known[f] {
+			continue
+		}
+		if f == featAlias {
+			x.Known(c06KnownCat)
+		} else {
+			x.Class("C08-matter:" + f)
+		}
 	}
-	if errB != nil {
-		return fail("i: shared buffer", errB)
-	}
-	if errC != nil {
-		return fail("i: decoded transaction", errC)
+	if !allClean {
+		return nil // every divergence, and with it every difference between the layouts, is the known one
 	}
 	// (ii)
-	if err := sameRun("sub-slices of one shared buffer", oA, oB); err != nil {
-		return fail("ii", err)
-	}
-	if err := sameRun("fields of a decoded transaction", oA, oC); err != nil {
-		return fail("ii", err)
+	for i := 1; i < len(layouts); i++ {
+		if err := sameRun(layouts[i].name, outs[0], outs[i]); err != nil {
+			return fail("ii", err)
+		}
 	}
 	return nil
 }
@@ -420,13 +369,54 @@ func c06BuildTx(c *c06TxCase) (*types.Tx, error) {
 	return types.NewTx(data), nil
 }
 
-func validateOutcome(tx *types.Tx) string {
+// validateOutcome runs ValidateTx; catRan reports whether the VM executed a CAT or CATPUSHDATA.
+func validateOutcome(tx *types.Tx) (verdict string, catRan bool) {
 	block := &bc.Block{BlockHeader: &bc.BlockHeader{Version: 1, Height: 100}}
+	w := &cappedTrace{max: 1 << 20}
+	vm.TraceOut = w
 	gas, err := validation.ValidateTx(tx.Tx, block, func(prog []byte) ([]byte, error) { return nil, fmt.Errorf("no contract") })
-	if err != nil {
-		return "invalid: " + firstLine(bytomerrors.Root(err).Error())
+	vm.TraceOut = nil
+	if tb := vm.BoolBytes(true); len(tb) == 1 && tb[0] != 1 {
+		tb[0] = 1 // see runImpl
+		catRan = true
 	}
-	return fmt.Sprintf("valid, gas left %d used %d storage %d btm %d", gas.GasLeft, gas.GasUsed, gas.StorageGas, gas.BTMValue)
+	for _, l := range strings.Split(w.buf.String(), "\n") {
+		if f := strings.Fields(l); len(f) >= 7 && f[0] == "vm" && (f[6] == "CAT" || f[6] == "CATPUSHDATA") {
+			catRan = true
+		}
+	}
+	if err != nil {
+		return "invalid: " + firstLine(bytomerrors.Root(err).Error()), catRan
+	}
+	return fmt.Sprintf("valid, gas left %d used %d storage %d btm %d", gas.GasLeft, gas.GasUsed, gas.StorageGas, gas.BTMValue), catRan
+}
+
+// dealias gives every byte string of a decoded transaction its own exact-capacity buffer (nil stays nil).
+func dealias(d *types.TxData) {
+	cp := func(b []byte) []byte {
+		if b == nil {
+			return nil
+		}
+		return exact(b)
+	}
+	cpl := func(l [][]byte) [][]byte {
+		if l == nil {
+			return nil
+		}
+		out := make([][]byte, len(l))
+		for i, b := range l {
+			out[i] = cp(b)
+		}
+		return out
+	}
+	for _, in := range d.Inputs {
+		if sp, ok := in.TypedInput.(*types.SpendInput); ok {
+			sp.Arguments, sp.ControlProgram, sp.StateData = cpl(sp.Arguments), cp(sp.ControlProgram), cpl(sp.StateData)
+		}
+	}
+	for _, out := range d.Outputs {
+		out.ControlProgram, out.StateData = cp(out.ControlProgram), cpl(out.StateData)
+	}
 }
 
 func c06TxGen(t *rapid.T) c06TxCase {
@@ -525,8 +515,8 @@ func c06TxExec(c c06TxCase, x *pbt.Ctx) error {
 		x.Class("SKIPPED-BY-ENV:alias")
 		return nil
 	}
-	r1 := validateOutcome(built)
-	r2 := validateOutcome(&decoded)
+	r1, cat1 := validateOutcome(built)
+	r2, cat2 := validateOutcome(&decoded)
 	if r1[:5] == "valid" {
 		x.Class("tx-valid")
 	} else {
@@ -534,16 +524,61 @@ func c06TxExec(c c06TxCase, x *pbt.Ctx) error {
 	}
 	desc := fmt.Sprintf("spend of an output with program %s = [%s], state data %s, arguments %v; creates output 0 with program %s, state data %s",
 		c.Prog, disasm(unhex(c.Prog)), showState(c.InState), c.Args, c.OutProg, showState(c.OutState))
+	var failure error
+	serChanged := false
 	if r1 != r2 {
-		return fmt.Errorf("(ii, transaction level) ValidateTx depends on the in-memory representation:\n  built with constructors: %s\n  after encode/decode:     %s\n  %s", r1, r2, desc)
+		failure = fmt.Errorf("(ii, transaction level) ValidateTx depends on the in-memory representation:\n  built with constructors: %s\n  after encode/decode:     %s\n  %s", r1, r2, desc)
 	}
-	for name, tx := range map[string]*types.Tx{"constructed": built, "decoded": &decoded} {
-		again, err := tx.TxData.MarshalText()
+	for _, tx := range []struct {
+		name string
+		tx   *types.Tx
+	}{{"constructed", built}, {"decoded", &decoded}} {
+		again, err := tx.tx.TxData.MarshalText()
 		if err != nil || !bytes.Equal(again, text) {
-			return fmt.Errorf("(i, transaction level) the %s transaction serialises differently after ValidateTx:\n  before %s\n  after  %s (%v)\n  %s", name, text, again, err, desc)
+			serChanged = true
+		}
+		if (err != nil || !bytes.Equal(again, text)) && failure == nil {
+			failure = fmt.Errorf("(i, transaction level) the %s transaction serialises differently after ValidateTx:\n  before %s\n  after  %s (%v)\n  %s", tx.name, text, again, err, desc)
 		}
 	}
-	return nil
+	if failure == nil {
+		return nil
+	}
+	// attribution to the two known findings: the verdicts must agree once the one
+	// representation difference each of them is about has been removed
+	emptyNonNil := (c.InState != nil && len(*c.InState) == 0) || (c.OutState != nil && len(*c.OutState) == 0)
+	norm := c
+	if norm.InState != nil && len(*norm.InState) == 0 {
+		norm.InState = nil
+	}
+	if norm.OutState != nil && len(*norm.OutState) == 0 {
+		norm.OutState = nil
+	}
+	builtNil, err := c06BuildTx(&norm) // as constructed, but every empty state list is nil (what the decoder produces)
+	if err != nil {
+		return fmt.Errorf("HARNESS: %v", err)
+	}
+	r1n, _ := validateOutcome(builtNil)
+	if r1 != r2 && !serChanged && emptyNonNil && r1n == r2 {
+		x.Known("checkoutput-nil-vs-empty-state")
+		return nil
+	}
+	if cat1 || cat2 {
+		var twin types.Tx
+		if err := twin.UnmarshalText(text); err != nil {
+			return fmt.Errorf("HARNESS: %v", err)
+		}
+		dealias(&twin.TxData) // as decoded, but no two byte strings share a buffer
+		twin.Tx = types.MapTx(&twin.TxData)
+		if r2d, _ := validateOutcome(&twin); r2d == r1n {
+			x.Known(c06KnownCat)
+			if r1 != r1n {
+				x.Known("checkoutput-nil-vs-empty-state")
+			}
+			return nil
+		}
+	}
+	return failure
 }
 
 func showState(p *[]string) string {
